@@ -383,6 +383,7 @@ def gen_kh_file(rng, clean):
             continue
         marker = rng.choice([None, None, None, 'cert-authority', 'revoked', 'revoked'])
         hashed = None
+        aim = None
         if rng.random() < 0.15:
             nm = rng.choice(HOSTS + ADDRS4)
             if rng.random() < 0.4:
@@ -401,6 +402,11 @@ def gen_kh_file(rng, clean):
                 else:
                     pat = rng.choice(['|1|abc', '|1|a|b|c', '|', '|1||', '|1|====|AAAA'])
                 hashed = 'odd'
+        elif rng.random() < 0.12:
+            # exact names plus a negated exact name, no wildcard: "host,!10.0.0.66 key" must not match that address
+            h, a = rng.choice(HOSTS), rng.choice(ADDRS4 + HOSTS[:3])
+            pat = rng.choice(['%s,!%s' % (h, a), '!%s,%s' % (a, h), '%s,gw,!%s' % (h, a)])
+            aim = (h, a)
         else:
             pat = gen_patterns(rng, clean, empty_ok)
             if not clean and rng.random() < 0.03:
@@ -423,6 +429,8 @@ def gen_kh_file(rng, clean):
         ln = {'text': text, 'marker': marker, 'pattern': pat, 'key': key, 'damage': kind, 'hashed': hashed}
         if hashed:
             ln['hashed_name'] = nm
+        if aim:
+            ln['aim'] = list(aim)
         if not clean:
             k = rng.random()
             if k < 0.03:
@@ -466,6 +474,12 @@ def gen_query(rng, lines):
     host = rng.choice(HOSTS)
     port = rng.choice([None, None, None] + PORTS)
     addr_forced = None
+    aims = [ln['aim'] for ln in lines if ln.get('aim')]
+    if aims and rng.random() < 0.5:
+        h, a = rng.choice(aims)
+        if ref.parse_ip(a) is not None:
+            return h, a, rng.choice([None, None, 2222])       # the host matches, the address is the negated one
+        return rng.choice([(a, '', None), (h, '', None)])
     if names and rng.random() < 0.6:
         nm, p = rng.choice(names)
         if any(ch in nm for ch in '*?'):
@@ -912,7 +926,7 @@ def gen_ossh_options(rng, plain_backslash=False):
     plain_backslash=True excludes the latter altogether."""
     while True:
         o, tags = _gen_ossh_options(rng)
-        if 'backslash_quote' in tags and ('case' in tags or plain_backslash):
+        if ('backslash_quote' in tags and plain_backslash) or ('backslash' in tags and 'case' in tags):
             continue
         return o, tags
 
